@@ -219,6 +219,8 @@ def worker(args):
     cwd = os.getcwd()
     os.chdir(mount)
     session = [None]
+    hist = []
+    kwlog = [None]
 
     def new_session():
         if session[0] is not None:
@@ -251,6 +253,8 @@ def worker(args):
                 kw['video'] = 'tandy'
             if kw.get('syntax') == 'pcjr':
                 kw['video'] = 'pcjr'
+        del hist[:]
+        kwlog[0] = {k: v for k, v in kw.items() if k in ('video', 'syntax')}
         s = Session(**kw)
         s.start()
         limit = [0]
@@ -267,6 +271,7 @@ def worker(args):
     def run_one(text, how='execute'):
         s = session[0] or new_session()
         count('cases')
+        hist.append([how, text.decode('latin-1')])
         signal.setitimer(signal.ITIMER_REAL, 1.5)
         try:
             if how == 'evaluate':
@@ -294,6 +299,7 @@ def worker(args):
             key = '%s@%s' % (type(e).__name__, site)
             count('host-exception')
             findings.append({'key': key, 'kind': kind, 'how': how, 'input': text.decode('latin-1'),
+                             'history': [list(h) for h in hist[-60:]], 'session_kw': kwlog[0],
                              'exception': '%s: %s' % (type(e).__name__, str(e)[:200]),
                              'trace': [('%s:%d:%s' % (f.filename.split('/pcbasic/')[-1], f.lineno, f.name))
                                        for f in traceback.extract_tb(tb)[-4:]]})
@@ -371,6 +377,9 @@ def worker(args):
                 os.makedirs(mount, exist_ok=True)
                 with open(os.path.join(mount, name), 'wb') as f:
                     f.write(data)
+                if session[0] is None:
+                    new_session()
+                hist.append(['file', name, data.hex()])
                 stem = name.split('.')[0].encode()
                 text = rng.choice([b'LOAD "%s"', b'RUN "%s"', b'MERGE "%s"', b'CHAIN "%s"', b'LOAD "%s",R', b'BLOAD "%s"',
                                    b'CHAIN MERGE "%s",10', b'OPEN "%s" FOR INPUT AS 1:LINE INPUT#1,A$:INPUT#1,B:CLOSE']) % stem
@@ -494,32 +503,51 @@ def replay(ctx, payload):
     case = payload.get('case', {})
     if 'input' not in case:
         return None
-    import sys
     from pcbasic.basic import Session
     from pcbasic.basic.base import error
+    signal.signal(signal.SIGALRM, _alarm)
     root = tempfile.mkdtemp(prefix='pcbv_c01r_')
+    cwd = os.getcwd()
     try:
-        kw = dict(output_streams=None, input_streams=None)
-        if case.get('kind') != 'default':
-            kw.update(devices={'C': root}, current_device='C')
-        if 'file_hex' in case:
-            with open(os.path.join(root, 'X.BAS'), 'wb') as f:
-                f.write(bytes.fromhex(case['file_hex']))
+        mount = os.path.join(root, 'a', 'b', 'mount')
+        os.makedirs(mount)
+        os.chdir(mount)
+        kw = dict(output_streams=None, input_streams=io.BytesIO(b'1\r"a",2\r\r12:30\rY\r' * 3))
+        if case.get('kind') == 'default':
+            kw = dict(output_streams=None, input_streams=None)
+        else:
+            kw.update(devices={'C': mount}, current_device='C')
+            kw.update(case.get('session_kw') or {})
         s = Session(**kw)
         s.start()
+        history = case.get('history') or [[case.get('how', 'execute'), case['input']]]
         try:
-            if case.get('how') == 'evaluate':
-                s.evaluate(case['input'].encode('latin-1'))
-            else:
-                if 'after' in case:
-                    s.execute(case['after'].encode('latin-1'))
-                s.execute(case['input'].encode('latin-1'))
-        except error.Exit:
-            return None
-        except Exception as e:
-            return 'host exception %s: %s' % (type(e).__name__, e)
+            for h in history:
+                if h[0] == 'file':
+                    os.makedirs(mount, exist_ok=True)
+                    with open(os.path.join(mount, h[1]), 'wb') as f:
+                        f.write(bytes.fromhex(h[2]))
+                    continue
+                signal.setitimer(signal.ITIMER_REAL, 3.0)
+                try:
+                    if h[0] == 'evaluate':
+                        s.evaluate(h[1].encode('latin-1'))
+                    else:
+                        s.execute(h[1].encode('latin-1'))
+                except error.Exit:
+                    return None
+                except CaseTimeout:
+                    return None
+                except Exception as e:
+                    return 'host exception %s: %s (at %r)' % (type(e).__name__, e, h[1][:80])
+                finally:
+                    signal.setitimer(signal.ITIMER_REAL, 0)
         finally:
-            s.close()
+            try:
+                s.close()
+            except Exception:
+                pass
     finally:
+        os.chdir(cwd)
         shutil.rmtree(root, ignore_errors=True)
     return None
